@@ -183,6 +183,43 @@ def check(ctx):
     ctx.sample({"wait": "E,P symbolic", "hal": ["waitForNotifierAlarm(h)", "updateNotifierAlarm(h, E+P)"]})
 
 
+def grid_of_first_waits(ctx, n=3):
+    """(ok, message): on one NotifierDelay object, alarm k+1 == alarm k + (first alarm - creation clock read) for the first
+    n waits, with no other clock read or HAL result in it.  Used by C05 as the premise of 'one iteration per period'."""
+    K = fn.anchor(ctx, MOD, "NotifierDelay")
+    p = Sym("period", "num", uid=0)
+
+    def run(it, w):
+        obj = it.call(K, [p], {})
+        n0 = len(it.trace)
+        for _ in range(n):
+            it.call(it.getattr(obj, "wait"), [], {})
+        return it.trace[:n0], it.trace[n0:]
+
+    msg = None
+    paths = [q for q in fn.all_paths(ctx, run) if q.outcome == "return"]
+    if not paths:
+        return False, "NotifierDelay(period).wait() has no normal path"
+    for q in paths:
+        tr0, tr = q.value
+        a0 = [e for e in hal(tr0) if e.name == "hal.updateNotifierAlarm"]
+        us = [e.extra for e in tr0 if e.kind == "clock" and e.extra.tag[1] == "us"]
+        arms = [e for e in hal(tr) if e.name == "hal.updateNotifierAlarm"]
+        if len(a0) != 1 or not us or len(arms) != n:
+            msg = msg or f"{n} waits re-arm the alarm {len(arms)} times"
+            continue
+        prev = a0[0].args[1]
+        try:
+            P = Lin.of(prev).add(us[-1], -1).simplify()
+            for e in arms:
+                if Lin.of(e.args[1]) != Lin.of(prev).add(P):
+                    msg = msg or f"wait() re-arms the alarm at {e.args[1]!r}, not at the previous alarm {prev!r} plus one period {P!r}"
+                prev = e.args[1]
+        except TypeError:
+            msg = msg or f"the alarm time {prev!r} is not an arithmetic term"
+    return msg is None, msg
+
+
 def bounded(ctx, K, p, site, hf, arm0, clocks0):
     """O2/M1 without an expiry field: one object, N waits in a row; alarm k must be alarm k-1 plus the period of the first alarm"""
     N = 4
